@@ -99,7 +99,7 @@ def _build_program(args):
              ["template", "overloads"], ["objargs", "template", "enum_nested"]][k % 8]
     feats = {"enums": True, "force": force}
     if k < 0:          # the `thisargs` program: class templates using `This` as argument / return everywhere
-        feats = {"enums": True, "force": ["template", "template", "enum_nested"], "this_args": True,
+        feats = {"enums": True, "force": ["template", "template", "enum_nested", "uchar"], "this_args": True,
                  "class_enum_nested": True, "plain_derive": False, "ref_returns": False, "static_void": False, "shuffle_functions": False, "untidy_layout": False, "char_types": False}
     prog, itext, lib = MP.generate(tape, feats)
     open(os.path.join(d, "prog.i"), "w").write(itext)
@@ -279,6 +279,9 @@ class Hist:
             if ty.name == "bool":
                 v = t.bool(0.5, "bool-val")
                 return S.MLogical(v), "b:%d" % v
+            if ty.name == "unsigned char":
+                v = t.pick([0, 7, 200, 255], "uchar-val")
+                return S.MInt("uint8", v), "u:%d" % v
             if ty.name == "char":
                 v = t.pick(["a", "Z", "0", " ", "~"], "char-val")
                 self.pr("char_argument")
@@ -336,6 +339,8 @@ class Hist:
                 return isinstance(v, S.MChar)
             if ty.name == "char":
                 return isinstance(v, S.MChar) and len(v.s) == 1
+            if ty.name == "unsigned char":
+                return isinstance(v, S.MInt) and v.kind == "uint8"
         if ty.kind == "eig":
             # a Vector is a column, a Point2/Point3 a 2x1 / 3x1 column; any real double array is a Matrix
             if not isinstance(v, S.MDouble):
@@ -861,6 +866,8 @@ class Hist:
                     en = [x for x in self.prog.enums if x.qname == rt.name][0]
                     if en.mname not in self.s.classes:
                         cls = "class-enum-package-misplaced"
+            if any(a.ty.kind == "prim" and a.ty.name == "unsigned char" for a in f.args):
+                cls = "unsigned-char-argument-never-accepted"
             if g is not None and any(a.ty.kind == "this" for a in g.args):
                 cls = "template-This-argument-refused"
             elif g is not None and g.ret is not None and not isinstance(g.ret, tuple) and g.ret.kind == "this":
